@@ -353,23 +353,18 @@ theorem C19_raw_highlights_disjoint_partial (s : Text) (M : Nat) (ts : List STok
     have := (hfi.2.2.2.2 b hb).1
     omega
 
-/-- end to end for every analyzer built from SimpleTokenizer or WhitespaceTokenizer (any scanning
-predicate) and any filter chain — in particular tantivy's `default` and `en_stem` analyzers —, any
-text, any query terms, any `max_num_chars`: `snippet` does not panic, every highlight lies inside
-the fragment on character boundaries of the fragment, and `to_html` does not panic -/
-theorem C19_scan_analyzer_snippet_safe (p : Cp → Bool) (fs : List Filter) (s : Text) (M : Nat)
+/-- end to end for every analyzer = (a tokenizer whose tokens satisfy the contract with end offsets
+that never decrease) + any filter chain, any text, any query terms, any `max_num_chars`: `snippet`
+does not panic, every highlight lies inside the fragment on character boundaries of the fragment,
+and `to_html` does not panic -/
+theorem C19_analyzer_snippet_safe (s : Text) (ts0 : List Token) (hc : Contract s ts0)
+    (hto : ts0.Pairwise (fun a b => a.to ≤ b.to)) (fs : List Filter) (M : Nat)
     (sc : Token → Option Nat) :
-    ∃ sn, snippet s M ((applyChain fs (scanTokens p s)).map (toSTok sc)) = some sn ∧
+    ∃ sn, snippet s M ((applyChain fs ts0).map (toSTok sc)) = some sn ∧
       (∀ h ∈ sn.hl, h.1 ≤ h.2 ∧ h.2 ≤ byteLen sn.fragment ∧
         IsBoundary sn.fragment h.1 ∧ IsBoundary sn.fragment h.2) ∧
       ∃ out, toHtml sn = some out := by
-  obtain ⟨hc, _, hp⟩ := scanTokens_contract p s
   obtain ⟨hcc, _⟩ := C19_chain_preserves_offsets fs s _ hc
-  have hto : (scanTokens p s).Pairwise (fun a b => a.to ≤ b.to) := by
-    refine hp.imp_of_mem ?_
-    intro a b _ hb hab
-    have := (hc.inb b hb).1
-    omega
   have hto' := chain_to_mono fs _ hto
   apply C19_highlights_inside_partial
   · refine ⟨?_, ?_⟩
@@ -381,6 +376,44 @@ theorem C19_scan_analyzer_snippet_safe (p : Cp → Bool) (fs : List Filter) (s :
       exact hcc.mono.imp (fun h => h.1)
   · simp only [List.pairwise_map, toSTok]
     exact hto'
+
+/-- … instantiated: every analyzer built from SimpleTokenizer or WhitespaceTokenizer (any scanning
+predicate) and any filter chain — in particular tantivy's `default` and `en_stem` analyzers -/
+theorem C19_scan_analyzer_snippet_safe (p : Cp → Bool) (fs : List Filter) (s : Text) (M : Nat)
+    (sc : Token → Option Nat) :
+    ∃ sn, snippet s M ((applyChain fs (scanTokens p s)).map (toSTok sc)) = some sn ∧
+      (∀ h ∈ sn.hl, h.1 ≤ h.2 ∧ h.2 ≤ byteLen sn.fragment ∧
+        IsBoundary sn.fragment h.1 ∧ IsBoundary sn.fragment h.2) ∧
+      ∃ out, toHtml sn = some out := by
+  obtain ⟨hc, _, hp⟩ := scanTokens_contract p s
+  refine C19_analyzer_snippet_safe s _ hc ?_ fs M sc
+  refine hp.imp_of_mem ?_
+  intro a b _ hb hab
+  have := (hc.inb b hb).1
+  omega
+
+/-- … RawTokenizer + any filter chain -/
+theorem C19_raw_analyzer_snippet_safe (fs : List Filter) (s : Text) (M : Nat)
+    (sc : Token → Option Nat) :
+    ∃ sn, snippet s M ((applyChain fs (rawTokens s)).map (toSTok sc)) = some sn ∧
+      (∀ h ∈ sn.hl, h.1 ≤ h.2 ∧ h.2 ≤ byteLen sn.fragment ∧
+        IsBoundary sn.fragment h.1 ∧ IsBoundary sn.fragment h.2) ∧
+      ∃ out, toHtml sn = some out :=
+  C19_analyzer_snippet_safe s _ (C19_raw_offsets s).1 (by simp [rawTokens]) fs M sc
+
+/-- … RegexTokenizer (any matcher satisfying `RegexOk`) + any filter chain -/
+theorem C19_regex_analyzer_snippet_safe (fs : List Filter) (s : Text) (ms : List (Nat × Nat))
+    (h : RegexOk s 0 ms) (M : Nat) (sc : Token → Option Nat) :
+    ∃ sn, snippet s M ((applyChain fs (regexTokens s ms)).map (toSTok sc)) = some sn ∧
+      (∀ h ∈ sn.hl, h.1 ≤ h.2 ∧ h.2 ≤ byteLen sn.fragment ∧
+        IsBoundary sn.fragment h.1 ∧ IsBoundary sn.fragment h.2) ∧
+      ∃ out, toHtml sn = some out := by
+  obtain ⟨hc, _, hp⟩ := C19_regex_offsets s ms h
+  refine C19_analyzer_snippet_safe s _ hc ?_ fs M sc
+  refine hp.imp_of_mem ?_
+  intro a b _ hb hab
+  have := (hc.inb b hb).1
+  omega
 
 /-! ### non-vacuity: the hypotheses are met by concrete non-trivial states -/
 
@@ -395,6 +428,9 @@ example : stutterAll (frontiers [⟨104, true⟩, ⟨233, true⟩, ⟨128512, fa
     = [(0, 1), (0, 3), (1, 3), (1, 7), (3, 7)] := by decide
 example : Contract [⟨104, true⟩, ⟨233, true⟩] [⟨0, 3, 0, [104, 233]⟩] :=
   ⟨by decide, by decide⟩
+example : Contract [⟨104, true⟩, ⟨233, true⟩, ⟨32, false⟩, ⟨97, true⟩] [⟨0, 3, 0, [104, 233]⟩, ⟨4, 5, 1, [97]⟩]
+    ∧ [(⟨0, 3, 0, [104, 233]⟩ : Token), ⟨4, 5, 1, [97]⟩].Pairwise (fun a b => a.to ≤ b.to) :=
+  ⟨⟨by decide, by decide⟩, by decide⟩
 example : SContract [⟨97, true⟩, ⟨233, true⟩, ⟨32, false⟩, ⟨98, true⟩] [⟨0, 3, some 4⟩, ⟨4, 5, none⟩]
     ∧ [(⟨0, 3, some 4⟩ : STok), ⟨4, 5, none⟩].Pairwise (fun a b => a.to ≤ b.to)
     ∧ ∀ t ∈ [(⟨0, 3, some 4⟩ : STok), ⟨4, 5, none⟩], t.to - t.from_ ≤ 3 :=
